@@ -8,6 +8,7 @@ import (
 	"go/constant"
 	"go/token"
 	"go/types"
+	"golang.org/x/tools/go/ssa"
 	"reflect"
 	"regexp"
 	"sort"
@@ -281,6 +282,9 @@ func runC11(c *Ctx) {
 
 	// ---- (7) EXT-TABLE-AGREES
 	c11ExtTables(c, pkF)
+
+	// ---- (8) SUBDIR-REMAP-TOTAL
+	c11SubdirRemap(c, pkFI)
 
 	var pkgs []*packages.Package
 	for _, rel := range []string{"private/pkg/protoencoding", pkgProtodesc} {
@@ -1662,4 +1666,122 @@ func c11ImageFileToProto(p *Prog, builder *FuncRef) *FuncRef {
 		}
 	}
 	return nil
+}
+
+// c11SubdirRemap (SUBDIR-REMAP-TOTAL, round 2): for archive and git inputs --path/--exclude-path values are relative to
+// the `subdir` option and one function joins them onto it before targeting. Both lists must be remapped whenever the
+// sub-directory is not ".": a return that hands a parameter back unchanged is allowed only on the edge where the
+// sub-directory parameter equals "." (a shortcut that also looks at the *other* list - "no --path, nothing to do" -
+// leaves --exclude-path values pointing outside the sub-directory, and the archive packaging stops agreeing with the
+// directory packaging). The function is found by shape: (string, []string, []string) -> ([]string, []string) in
+// buffetch/internal whose closures call normalpath.Join.
+func c11SubdirRemap(c *Ctx, pk *packages.Package) {
+	const rule = "SUBDIR-REMAP-TOTAL"
+	c.Rule(rule, "path and exclude-path lists of archive/git inputs are both joined onto subdir unless subdir is \".\"", 2)
+	p := c.P
+	isStrSlice := func(t types.Type) bool {
+		sl, ok := t.Underlying().(*types.Slice)
+		if !ok {
+			return false
+		}
+		b, ok := sl.Elem().Underlying().(*types.Basic)
+		return ok && b.Kind() == types.String
+	}
+	found := 0
+	for _, sf := range p.SSAFuncsOf([]*packages.Package{pk}) {
+		sig := sf.Signature
+		if sf.Parent() != nil || sig.Recv() != nil || sig.Params().Len() != 3 || sig.Results().Len() != 2 {
+			continue
+		}
+		if b, ok := sig.Params().At(0).Type().Underlying().(*types.Basic); !ok || b.Kind() != types.String {
+			continue
+		}
+		if !isStrSlice(sig.Params().At(1).Type()) || !isStrSlice(sig.Params().At(2).Type()) || !isStrSlice(sig.Results().At(0).Type()) || !isStrSlice(sig.Results().At(1).Type()) {
+			continue
+		}
+		joins := false
+		for _, call := range callsDeep(sf) {
+			if calleeIs(staticCalleeObj(call.Call), "private/pkg/normalpath", "Join") {
+				joins = true
+			}
+		}
+		if !joins {
+			continue
+		}
+		found++
+		subdir := sf.Params[0]
+		name := sf.Name()
+		// the parameter is captured by the mapping closures, so the builder spills it to a cell
+		var cell ssa.Value
+		for _, ref := range *subdir.Referrers() {
+			if st, ok := ref.(*ssa.Store); ok && st.Val == ssa.Value(subdir) {
+				if _, isAlloc := st.Addr.(*ssa.Alloc); isAlloc {
+					cell = st.Addr
+				}
+			}
+		}
+		isSubdir := func(v ssa.Value) bool {
+			if v == ssa.Value(subdir) {
+				return true
+			}
+			if cell == nil {
+				return false
+			}
+			if v == cell {
+				return true
+			}
+			u, ok := v.(*ssa.UnOp)
+			return ok && u.Op == token.MUL && u.X == cell
+		}
+		for i := 0; i < 2; i++ {
+			mapped, identityOK, identityBad := 0, 0, 0
+			for _, r := range returnsOf(sf) {
+				v := stripConv(r.Results[i])
+				if _, isParam := v.(*ssa.Parameter); !isParam {
+					// a remapped list: must come from a call whose callback joins onto the sub-directory
+					if dependsOnCall(v, func(cc *ssa.CallCommon) bool {
+						for _, a := range cc.Args {
+							if mc, ok := a.(*ssa.MakeClosure); ok {
+								for _, b := range mc.Bindings {
+									if isSubdir(b) {
+										return true
+									}
+								}
+							}
+						}
+						return false
+					}) {
+						mapped++
+					} else {
+						identityBad++
+					}
+					continue
+				}
+				guarded := false
+				for _, ge := range guardingEdges(r.Block()) {
+					bin, ok := ge.If.Cond.(*ssa.BinOp)
+					if !ok || (bin.Op != token.EQL && bin.Op != token.NEQ) {
+						continue
+					}
+					x, y := bin.X, bin.Y
+					if isConstString(x, ".") {
+						x, y = y, x
+					}
+					if isSubdir(x) && isConstString(y, ".") && ge.Branch == (bin.Op == token.EQL) {
+						guarded = true
+					}
+				}
+				if guarded {
+					identityOK++
+				} else {
+					identityBad++
+				}
+			}
+			which := []string{"paths", "exclude-paths"}[i]
+			c.Ob(rule, name+"/"+which, sf.Pos(), mapped >= 1 && identityBad == 0, true, "%s: %d return(s) join the list onto the sub-directory, %d return it unchanged on the subdir == \".\" edge, %d return it unchanged (or otherwise unmapped) elsewhere", which, mapped, identityOK, identityBad)
+		}
+	}
+	if found == 0 {
+		c.Fail(rule, "anchor", token.NoPos, "no (subdir, paths, excludePaths) -> (paths, excludePaths) remapping function found in buffetch/internal")
+	}
 }
